@@ -30,11 +30,15 @@ type c09Source struct {
 	pos    int
 	chunk  int
 	hiccup bool // one transient EOF after the first chunk
+	pause  bool // a pause of 400 ms before the third read (inside a frame when the chunks are small)
 	reads  int
 }
 
 func (s *c09Source) Read(p []byte) (int, error) {
 	s.reads++
+	if s.pause && s.reads == 3 {
+		verifAdvanceClock(400 * 1000000)
+	}
 	if s.hiccup && s.reads == 2 {
 		return 0, io.EOF
 	}
@@ -153,9 +157,12 @@ func VerifC09_FanOut() {
 		cfg.TimeoutOnEOFMilliSeconds = 200
 		hiccup = true
 	}
+	// the source may stall for 400 ms in the middle of the input ("however
+	// the bytes are chunked in time")
+	pause := verifParam("stall", 0, 1) == 1
 	core := New(cfg, []chan rtcm.Message{chA, nil, chB})
 	verifWitness("reached")
-	ret := core.HandleMessagesUntilEOF(verifTimeOf(1676376000*1000000000), bufio.NewReader(&c09Source{data: in, chunk: chunk, hiccup: hiccup}))
+	ret := core.HandleMessagesUntilEOF(verifTimeOf(1676376000*1000000000), bufio.NewReader(&c09Source{data: in, chunk: chunk, hiccup: hiccup, pause: pause}))
 	verifWitness("returned")
 	verifAssert("returns-continue-on-end-of-input", ret == 0)
 	// the caller owns the consumer channels: close them and let everything
